@@ -76,6 +76,7 @@ Example C14_trait_examples :
   ts true (TRec [TPrim PInt8; TPrim PFloat32]) = false /\
   ts true (TRec [TFixVec 0 (TPrim PUint8); TPrim PUint8]) = false.
 Proof. vm_compute. repeat split. Qed.
+Print Assumptions C14_trait_examples.
 
 (* The Python array fast path follows the plan too: when NDArraySerializerBase hands value.data to write_bytes_directly
    (element serializer trivially serializable, element dtype without padding: Model.PyTyped.py_fast), the raw bytes of a
